@@ -1,10 +1,15 @@
 //! One monitor per property; dispatch by property id.
+pub mod c03;
+pub mod c08;
 pub mod c09;
 pub mod c10;
 pub mod c11;
 pub mod c14;
 pub mod c15;
+pub mod c16;
+pub mod c17;
 pub mod rules;
+pub mod sanit;
 pub mod rules_driver;
 pub mod search;
 pub mod searchlib;
@@ -17,13 +22,17 @@ pub fn run_check(prop: &str, tier: Tier, seed: u64) -> i32 {
         return rules_driver::run(p, tier, seed);
     }
     match prop {
+        "C03" => c03::run(tier, seed),
         "C07" => search::run_c07(tier, seed),
+        "C08" => c08::run(tier, seed),
         "C09" => c09::run(tier, seed),
         "C10" => c10::run(tier, seed),
         "C11" => c11::run(tier, seed),
         "C12" => search::run_c12(tier, seed),
         "C14" => c14::run(tier, seed),
         "C15" => c15::run(tier, seed),
+        "C16" => c16::run(tier, seed),
+        "C17" => c17::run(tier, seed),
         "C18" => search::run_c18(tier, seed),
         _ => {
             println!("INCONCLUSIVE unknown property {}", prop);
